@@ -20,7 +20,7 @@ CONSTANTS
     GW = 32
     Keepalive = FALSE
     FreeNonce = FALSE
-    MaxHandled = 6
+    MaxHandled = 5
     MaxSyncHanded = 2
 INVARIANT InOrderAtMostOnce
 INVARIANT ReliableNeverSkipped
